@@ -63,6 +63,7 @@ pub fn probe_ex<F: FnOnce(i32) -> i32>(timeout_ms: u64, untraced: bool, detect_d
         let pid = libc::fork();
         assert!(pid >= 0, "fork failed");
         if pid == 0 {
+            libc::prctl(libc::PR_SET_PDEATHSIG, libc::SIGKILL);
             libc::close(fds[0]);
             let code = match std::panic::catch_unwind(std::panic::AssertUnwindSafe(|| f(fds[1]))) {
                 Ok(c) => c,
